@@ -1,11 +1,14 @@
 """C19 — the exposed hash primitives: FNV half decided from the table, forms as folds; rolling step shape."""
-from ..rules import data, fold
+from ..rules import data, fold, rolling
 
 EXPL = ("Decides: (1) SA-DATA exhaustively over all 64x64 entries of FNV_TABLE as evaluated by rustc: entry = low 6 bits of "
         "((state*0x01000193) xor c); initial value = 0x28021967 mod 64; update_by_byte's only store to the state is "
         "FNV_TABLE[value()][ch % 64] (or the arithmetic step under opt-reduce-fnv-table, with value() masking to 6 bits); no other "
         "function writes the state field; (2) SA-DELEGATE: for both primitives update/update_by_iter are folds of update_by_byte "
-        "over the whole input and the three `+=` forms forward to them, so all forms agree by construction; NOT decided: that the rolling value depends only on the "
+        "over the whole input and the three `+=` forms forward to them, so all forms agree by construction; (3) SA-FORMULA by forward value numbering over the loop-free step: "
+        "h2' = h2 - h1 + 7*c, h1' = h1 + c - window[i], window[i]' = c, h3' = (h3 << 5) ^ c, i' = (i+1) mod 7, nothing else is "
+        "written, value() = h1+h2+h3 (all wrapping), new() is all-zero - i.e. the step is ssdeep's roll_hash step, and since h3 "
+        "shifts by 5 seven times a byte leaves the 32-bit word after 7 steps. NOT decided: that the rolling value depends only on the "
         "last seven bytes (algebraic cancellation over histories).")
 
 
@@ -16,4 +19,5 @@ def run(ctx):
         ctx.guard("C19", "fnv", lambda: data.fnv_table(ctx, prog))
         ctx.guard("C19", "fnv-forms", lambda: fold.primitive_forms(ctx, prog, "PartialFNVHash"))
         ctx.guard("C19", "roll-forms", lambda: fold.primitive_forms(ctx, prog, "RollingHash"))
+        ctx.guard("C19", "roll-step", lambda: rolling.step_shape(ctx, prog))
     return ctx.finish(EXPL, ["u32 wrapping_* methods have their documented meaning", "rustc's const evaluation of FNV_TABLE"])
